@@ -9,9 +9,12 @@
        item      ::= c | lo '-' hi
    over ASCII, without '\' escapes, without '{' '}' alternatives and without a
    '/' between brackets ([in_grammar]). The harness additionally never produces
-   runs of three or more '*' or two adjacent "**" components, because
-   doublestar v4 treats a pattern tail such as "a/**/**" or "a***" specially
-   when the name is exhausted (isZeroLengthPattern); see the C14 report.
+   (i) runs of three or more '*', (ii) two adjacent "**" components, (iii) a
+   final "**" component right after a component that ends in '*': when the
+   name is exhausted doublestar v4 accepts only the pattern tails "", "*",
+   "**" and "/**" (isZeroLengthPattern), so "a***", "a/**/**" and "a*/**" do not
+   match "a" although "a**", "a/**" and "*/**" do; these degenerate tails are
+   left outside the grammar (see the C14 report).
 
    [glob_match strict] has two readings:
      strict = true   the DOCUMENTED meaning: '*', '?' and classes never match
